@@ -3,10 +3,17 @@
 //     VERIF_MUTANT_DIR) row by row — compared by the driver with the generated Lean definitions.
 //     leaf rows: <peer state> <peer dir> <snapshot cached> <snapshot dir> <dir of this connection>
 //     <rc: the re-load finds an entry> <rcdir: direction of that entry>.
+//     reap rows (overlay/reaper.go, reapPeer): <loaded: an entry is cached for the peer> => what happens to it.
 //  2. sched: every maximal interleaving of one dial / two simultaneous dials (snapshot, decide, reap steps) from every
 //     consistent pre-existing cache state, executed by a simulator over the CURRENT rows; the driver compares the
-//     final state with the Lean model and judges it against the property.
-//  3. live (see live.go): two real overlay.QUIC transports on loopback dialing each other simultaneously.
+//     final state with the Lean model and judges it against the property. Step labels: s/d/r + Pc|Qc|Qd|Pd
+//     (snapshot, decide, reap of a stored connection that died), eP|eQ (reap by the close-watcher of the pre-existing
+//     connection e), lP|lQ (a STALE reap: reapPeer runs a second time for an older connection that died and was
+//     reaped long ago — periodic reaper() and close goroutine both reaped it — at any moment of the schedule).
+//     A state is final when no s/d/r/e step is enabled; stale reaps are optional, every final state on the way
+//     is reported.
+//  3. live (see live.go): two real overlay.QUIC transports on loopback: simultaneous dials, and
+//     connect / connection dies / reconnect the other way round / late second reap of the dead connection.
 package main
 
 import (
@@ -24,26 +31,32 @@ type act struct {
 	store, ret, err                             string
 }
 
+type reapAct struct{ del, closeCached, closeTrigger bool }
+
 var snapRows = map[string][2]string{}
 var leafRows = map[string]act{}
+var reapRows = map[string]reapAct{}
 var tableLines []string
+
+func srcPath(rel string) string {
+	repo := os.Getenv("VERIF_REPO")
+	if repo == "" {
+		repo = "/repo"
+	}
+	if m := os.Getenv("VERIF_MUTANT_DIR"); m != "" {
+		if _, err := os.Stat(filepath.Join(m, rel)); err == nil {
+			return filepath.Join(m, rel)
+		}
+	}
+	return filepath.Join(repo, rel)
+}
 
 func loadTable() error {
 	exe := os.Getenv("VERIF_EXTRACT")
 	if exe == "" {
 		exe = "/verif/build/extract"
 	}
-	repo := os.Getenv("VERIF_REPO")
-	if repo == "" {
-		repo = "/repo"
-	}
-	src := filepath.Join(repo, "overlay/reuse.go")
-	if m := os.Getenv("VERIF_MUTANT_DIR"); m != "" {
-		if _, err := os.Stat(filepath.Join(m, "overlay/reuse.go")); err == nil {
-			src = filepath.Join(m, "overlay/reuse.go")
-		}
-	}
-	out, err := exec.Command(exe, "c41-lines", src).CombinedOutput()
+	out, err := exec.Command(exe, "c41-lines", srcPath("overlay/reuse.go"), srcPath("overlay/reaper.go")).CombinedOutput()
 	if err != nil {
 		return fmt.Errorf("extract c41-lines: %v: %s", err, out)
 	}
@@ -82,7 +95,24 @@ func loadTable() error {
 				}
 			}
 			leafRows[strings.Join(t[1:], " ")] = a
+		case "reap":
+			a := reapAct{}
+			for _, kv := range strings.Split(parts[1], ",") {
+				p := strings.SplitN(kv, "=", 2)
+				switch p[0] {
+				case "del":
+					a.del = p[1] == "true"
+				case "closeCached":
+					a.closeCached = p[1] == "true"
+				case "closeTrigger":
+					a.closeTrigger = p[1] == "true"
+				}
+			}
+			reapRows[strings.Join(t[1:], " ")] = a
 		}
+	}
+	if len(reapRows) != 2 || len(snapRows) == 0 || len(leafRows) == 0 {
+		return fmt.Errorf("incomplete table (%d snap, %d leaf, %d reap rows)", len(snapRows), len(leafRows), len(reapRows))
 	}
 	return nil
 }
@@ -104,9 +134,12 @@ type proc struct {
 
 type state struct {
 	dual   bool
+	pre    pre
 	cache  [2]entry // P, Q
-	closed map[string]bool
+	closed map[string]byte // connection -> what closed it first: 'n' negotiation (or a reap it caused), 'l' stale reap (or a reap it caused)
 	p      [4]proc // Pc Qc Qd Pd
+	watch  [2]bool // close-watcher goroutine of the pre-existing connection e still waiting at P, Q
+	late   [2]bool // a stale reap may still run at P, Q
 }
 
 var procName = []string{"Pc", "Qc", "Qd", "Pd"}
@@ -114,10 +147,11 @@ var procSide = []int{0, 1, 1, 0}
 var procConn = []string{"c", "c", "d", "d"}
 var procDir = []string{"outgoing", "incoming", "outgoing", "incoming"}
 var procPeer = []int{1, 0, 3, 2}
+var sideName = []string{"P", "Q"}
 
 func (s *state) clone() *state {
 	n := *s
-	n.closed = map[string]bool{}
+	n.closed = map[string]byte{}
 	for k, v := range s.closed {
 		n.closed[k] = v
 	}
@@ -138,26 +172,109 @@ func dirOr(e entry) string {
 	return e.dir
 }
 
-func (s *state) enabled(kind byte, i int) bool {
-	switch kind {
+// a step label: kind s|d|r + process, or kind e|l + side
+type label struct {
+	kind byte
+	i    int
+}
+
+func (l label) String() string {
+	if l.kind == 'e' || l.kind == 'l' {
+		return string(l.kind) + sideName[l.i]
+	}
+	return string(l.kind) + procName[l.i]
+}
+
+func parseLabel(t string) (label, bool) {
+	if len(t) < 2 {
+		return label{}, false
+	}
+	names := procName
+	if t[0] == 'e' || t[0] == 'l' {
+		names = sideName
+	} else if t[0] != 's' && t[0] != 'd' && t[0] != 'r' {
+		return label{}, false
+	}
+	for j, n := range names {
+		if n == t[1:] {
+			return label{t[0], j}, true
+		}
+	}
+	return label{}, false
+}
+
+var ownLabels, lateLabels, allLabels []label
+
+func init() {
+	for _, k := range []byte{'s', 'd', 'r'} {
+		for i := 0; i < 4; i++ {
+			ownLabels = append(ownLabels, label{k, i})
+		}
+	}
+	ownLabels = append(ownLabels, label{'e', 0}, label{'e', 1})
+	lateLabels = []label{{'l', 0}, {'l', 1}}
+	allLabels = append(append([]label{}, ownLabels...), lateLabels...)
+}
+
+func (s *state) enabled(l label) bool {
+	i := l.i
+	switch l.kind {
 	case 's':
 		return (i < 2 || s.dual) && s.p[i].pc == 0
 	case 'd':
 		return s.p[i].pc == 1 && s.p[procPeer[i]].pc != 0
 	case 'r':
-		return s.p[i].pc == 2 && s.p[i].res == "fresh" && !s.p[i].reaped && s.closed[procConn[i]]
+		return s.p[i].pc == 2 && s.p[i].res == "fresh" && !s.p[i].reaped && s.closed[procConn[i]] != 0
+	case 'e':
+		return s.watch[i] && s.closed["e"] != 0
+	case 'l':
+		return s.late[i]
 	}
 	return false
 }
 
-func (s *state) step(kind byte, i int) {
-	side := procSide[i]
-	switch kind {
+// final: no step of the negotiations and no due reap is left (a stale reap may still be possible)
+func (s *state) final() bool {
+	for _, l := range ownLabels {
+		if s.enabled(l) {
+			return false
+		}
+	}
+	return true
+}
+
+func (s *state) close(conn string, by byte) {
+	if conn != "" && s.closed[conn] == 0 && by != 0 {
+		s.closed[conn] = by
+	}
+}
+
+// reapPeer at `side` (atomic under the key's Lock): trigger = the connection whose death started it ("" = a stale
+// reap of a connection outside the model), by = what its closes count as
+func (s *state) reapPeer(side int, trigger string, by byte) {
+	ent := s.cache[side]
+	a := reapRows[b(ent.conn != "")]
+	if a.closeCached {
+		s.close(ent.conn, by)
+	}
+	if a.closeTrigger {
+		s.close(trigger, by)
+	}
+	if a.del {
+		s.cache[side] = entry{}
+	}
+}
+
+func (s *state) step(l label) {
+	i := l.i
+	switch l.kind {
 	case 's':
+		side := procSide[i]
 		snap := s.cache[side]
 		st := snapRows[b(snap.conn != "")+" "+dirOr(snap)+" "+procDir[i]]
 		s.p[i] = proc{pc: 1, snap: snap, status: st}
 	case 'd':
+		side := procSide[i]
 		me := s.p[i]
 		peer := s.p[procPeer[i]].status
 		cur := s.cache[side]
@@ -173,10 +290,10 @@ func (s *state) step(kind byte, i int) {
 			cv = cur
 		}
 		if a.closeFresh {
-			s.closed[procConn[i]] = true
+			s.close(procConn[i], 'n')
 		}
-		if a.closeCache && cv.conn != "" {
-			s.closed[cv.conn] = true
+		if a.closeCache {
+			s.close(cv.conn, 'n')
 		}
 		if a.del {
 			s.cache[side] = entry{}
@@ -197,15 +314,18 @@ func (s *state) step(kind byte, i int) {
 			res = "fresh"
 		}
 		if res == "err" && procDir[i] == "incoming" {
-			s.closed[procConn[i]] = true
+			s.close(procConn[i], 'n')
 		}
 		s.p[i] = proc{pc: 2, status: me.status, res: res}
 	case 'r':
-		if c := s.cache[side]; c.conn != "" {
-			s.closed[c.conn] = true
-		}
-		s.cache[side] = entry{}
+		s.reapPeer(procSide[i], procConn[i], s.closed[procConn[i]])
 		s.p[i].reaped = true
+	case 'e':
+		s.reapPeer(i, "e", s.closed["e"])
+		s.watch[i] = false
+	case 'l':
+		s.reapPeer(i, "", 'l')
+		s.late[i] = false
 	}
 }
 
@@ -222,8 +342,11 @@ func entryTok(e entry) string {
 func (s *state) String() string {
 	cl := ""
 	for _, c := range []string{"e", "c", "d"} {
-		if s.closed[c] {
+		switch s.closed[c] {
+		case 'n':
 			cl += c
+		case 'l': // closed by a stale reap (or by a reap that it caused): upper case
+			cl += strings.ToUpper(c)
 		}
 	}
 	if cl == "" {
@@ -243,10 +366,18 @@ func (s *state) String() string {
 		}
 		out += ";" + procName[i] + "=" + r
 	}
+	// one field per close-watcher of the pre-existing connection
+	for x, e := range []entry{s.pre.p, s.pre.q} {
+		if e.conn != "" {
+			w := "reaped"
+			if s.watch[x] {
+				w = "watch"
+			}
+			out += ";e" + sideName[x] + "=" + w
+		}
+	}
 	return out
 }
-
-var kinds = []byte{'s', 'd', 'r'}
 
 type pre struct{ p, q entry }
 
@@ -257,8 +388,10 @@ var preStates = []pre{
 	{entry{"e", "outgoing"}, entry{"e", "incoming"}}, {entry{"e", "incoming"}, entry{"e", "outgoing"}},
 }
 
-func initState(dual bool, pr pre) *state {
-	return &state{dual: dual, cache: [2]entry{pr.p, pr.q}, closed: map[string]bool{}}
+// lateP / lateQ: a stale reap may happen at that side
+func initState(dual bool, pr pre, lateP, lateQ bool) *state {
+	return &state{dual: dual, pre: pr, cache: [2]entry{pr.p, pr.q}, closed: map[string]byte{},
+		watch: [2]bool{pr.p.conn != "", pr.q.conn != ""}, late: [2]bool{lateP, lateQ}}
 }
 
 func emitSched(r *hlib.Run, dual bool, pr pre, steps []string, s *state) {
@@ -267,34 +400,54 @@ func emitSched(r *hlib.Run, dual bool, pr pre, steps []string, s *state) {
 		d = "1"
 	}
 	lhs := "sched " + d + " " + entryTok(pr.p) + " " + entryTok(pr.q) + " " + strings.Join(steps, ",")
-	r.Emit(lhs, s.String())
+	if len(steps) == 0 {
+		lhs += "-"
+	}
+	rhs := s.String()
+	r.Emit(lhs, rhs)
 	r.Case(lhs)
-	if strings.Contains(s.String(), "reused:") {
+	if strings.Contains(rhs, "reused:") {
 		r.Count("sched:some-reuse")
 	}
-	if strings.Contains(s.String(), "=fresh") {
+	if strings.Contains(rhs, "=fresh") {
 		r.Count("sched:some-store")
 	}
-	if strings.Contains(s.String(), "+reaped") {
+	if strings.Contains(rhs, "+reaped") {
 		r.Count("sched:reaped")
+	}
+	nl := 0
+	for _, st := range steps {
+		if st[0] == 'l' {
+			nl++
+		}
+	}
+	r.Count(fmt.Sprintf("sched:stale-reaps=%d", nl))
+	if nl > 0 && strings.ContainsAny(field(rhs, "closed"), "ECD") {
+		r.Count("sched:stale-reap-closed-a-cached-connection")
 	}
 	r.Count("sched:dual=" + d)
 }
 
-func dfs(r *hlib.Run, dual bool, pr pre, s *state, steps []string) {
-	any := false
-	for _, k := range kinds {
-		for i := 0; i < 4; i++ {
-			if s.enabled(k, i) {
-				any = true
-				n := s.clone()
-				n.step(k, i)
-				dfs(r, dual, pr, n, append(append([]string{}, steps...), string(k)+procName[i]))
-			}
+func field(rhs, key string) string {
+	for _, f := range strings.Split(rhs, ";") {
+		if strings.HasPrefix(f, key+"=") {
+			return f[len(key)+1:]
 		}
 	}
-	if !any {
+	return ""
+}
+
+// every interleaving from s; every final state on the way is reported (a stale reap may follow a final state)
+func dfs(r *hlib.Run, dual bool, pr pre, s *state, steps []string) {
+	if s.final() {
 		emitSched(r, dual, pr, steps, s)
+	}
+	for _, l := range allLabels {
+		if s.enabled(l) {
+			n := s.clone()
+			n.step(l)
+			dfs(r, dual, pr, n, append(append([]string{}, steps...), l.String()))
+		}
 	}
 }
 
@@ -310,26 +463,35 @@ func parseEntryTok(t string) entry {
 	return entry{p[0], d}
 }
 
+// run a list of labels (labels that are not enabled are skipped); stale reaps are possible at both sides
 func runSteps(dual bool, pr pre, steps []string) *state {
-	s := initState(dual, pr)
+	s := initState(dual, pr, true, true)
 	for _, st := range steps {
-		k := st[0]
-		i := 0
-		for j, n := range procName {
-			if n == st[1:] {
-				i = j
-			}
-		}
-		if s.enabled(k, i) {
-			s.step(k, i)
+		if l, ok := parseLabel(st); ok && s.enabled(l) {
+			s.step(l)
 		}
 	}
 	return s
 }
 
+// complete the run deterministically (no further stale reap) so that the reported state is final
+func complete(st *state, steps []string) []string {
+	for again := true; again; {
+		again = false
+		for _, l := range ownLabels {
+			if st.enabled(l) {
+				st.step(l)
+				steps = append(steps, l.String())
+				again = true
+			}
+		}
+	}
+	return steps
+}
+
 func main() {
 	r := hlib.Start()
-	r.Rule = "table rows of the current reuse.go; sched = every maximal interleaving of snapshot/decide/reap steps of one dial or two simultaneous dials from each of the 7 consistent pre-existing cache states (exhaustive), plus random step sequences with repeated / disabled labels; non-trivial = distinct schedule"
+	r.Rule = "table rows of the current reuse.go / reaper.go; sched = every interleaving of snapshot/decide/reap steps of one dial or two simultaneous dials from each of the 7 consistent pre-existing cache states (exhaustive), the same with one stale reap (second reapPeer of an older dead connection) at either side at every point of the schedule (exhaustive for one dial; for two dials exhaustive in the thorough tier, a seeded sample of the insertion points in the quick tier), plus random step sequences with repeated / disabled labels and stale reaps at both sides; non-trivial = distinct schedule"
 	if err := loadTable(); err != nil {
 		// the decision code is no longer in the shape the extractor understands
 		r.Emit("table", "unreadable:"+strings.ReplaceAll(err.Error(), " ", "_"))
@@ -342,8 +504,11 @@ func main() {
 			case "sched":
 				pr := pre{parseEntryTok(t[2]), parseEntryTok(t[3])}
 				steps := strings.Split(t[4], ",")
+				if t[4] == "-" {
+					steps = nil
+				}
 				emitSched(r, t[1] == "1", pr, steps, runSteps(t[1] == "1", pr, steps))
-			case "snap", "leaf":
+			case "snap", "leaf", "reap":
 				for _, l := range tableLines {
 					if strings.HasPrefix(l, strings.Join(t, " ")+" => ") {
 						p := strings.SplitN(l, " => ", 2)
@@ -352,6 +517,8 @@ func main() {
 				}
 			case "live":
 				live(r, 1)
+			case "relive":
+				relive(r, 1)
 			}
 		}
 		r.Finish()
@@ -364,39 +531,40 @@ func main() {
 		r.Case(p[0])
 		r.Count("table-row")
 	}
+	rng := hlib.NewRng(r.Seed)
 	for _, dual := range []bool{false, true} {
 		for _, pr := range preStates {
 			r.Raw("# case sched")
-			dfs(r, dual, pr, initState(dual, pr), nil)
+			dfs(r, dual, pr, initState(dual, pr, false, false), nil)
+		}
+	}
+	// one stale reap, at P or at Q, at every point of every interleaving
+	for _, dual := range []bool{false, true} {
+		for _, pr := range preStates {
+			for side := 0; side < 2; side++ {
+				r.Raw("# case sched")
+				dfsLate(r, rng, dual, pr, initState(dual, pr, side == 0, side == 1), nil)
+			}
 		}
 	}
 	// random label sequences, with repetitions and labels that are not enabled (the model skips them)
-	rng := hlib.NewRng(r.Seed)
 	n := 3000
 	if r.Thorough() {
 		n = 60000
+	}
+	var names []string
+	for _, l := range allLabels {
+		names = append(names, l.String())
 	}
 	for t := 0; t < n; t++ {
 		dual := rng.Chance(80)
 		pr := hlib.Pick(rng, preStates)
 		var steps []string
 		for j := 0; j < 6+rng.Intn(24); j++ {
-			steps = append(steps, string(hlib.Pick(rng, kinds))+hlib.Pick(rng, procName))
+			steps = append(steps, hlib.Pick(rng, names))
 		}
-		// complete the run deterministically so that the reported state is final
 		st := runSteps(dual, pr, steps)
-		for again := true; again; {
-			again = false
-			for _, k := range kinds {
-				for i := 0; i < 4; i++ {
-					if st.enabled(k, i) {
-						st.step(k, i)
-						steps = append(steps, string(k)+procName[i])
-						again = true
-					}
-				}
-			}
-		}
+		steps = complete(st, steps)
 		r.Raw("# case sched")
 		emitSched(r, dual, pr, steps, st)
 	}
@@ -405,5 +573,38 @@ func main() {
 		nlive = 40
 	}
 	live(r, nlive)
+	nre := 2
+	if r.Thorough() {
+		nre = 10
+	}
+	relive(r, nre)
 	r.Finish()
 }
+
+// the interleavings with one stale reap: as dfs, but only the final states that come after the stale reap are
+// reported (the others are those of the run without it). Thorough tier: exhaustive. Quick tier: exhaustive for one
+// dial; for two dials the stale reap is tried at a seeded sample of the nodes (always at the nodes where it finds a
+// connection cached that the other side caches too — there it matters most).
+func dfsLate(r *hlib.Run, rng *hlib.Rng, dual bool, pr pre, s *state, steps []string) {
+	lateDone := !s.late[0] && !s.late[1]
+	if lateDone && s.final() {
+		emitSched(r, dual, pr, steps, s)
+	}
+	for _, l := range allLabels {
+		if !s.enabled(l) {
+			continue
+		}
+		if l.kind == 'l' && dual && !r.Thorough() {
+			c := s.cache[l.i]
+			shared := c.conn != "" && s.cache[1-l.i].conn == c.conn
+			if !shared && !rng.Chance(lateSamplePct) {
+				continue
+			}
+		}
+		n := s.clone()
+		n.step(l)
+		dfsLate(r, rng, dual, pr, n, append(append([]string{}, steps...), l.String()))
+	}
+}
+
+var lateSamplePct = 100
